@@ -512,6 +512,19 @@ inline void pre(Kind k, const void* obj, int mo = 5)
         if (c.inj_p) stress_delay(c);
     }
 }
+// A second scheduling / delay point right AFTER release-like operations (unlock, atomic store / RMW / CAS): code that
+// follows them may touch state other threads reach through un-hooked means (std::promise, shared_ptr control blocks,
+// plain fields), so the window "released ... next hooked operation" must be separable from both sides.
+inline void post(Kind k, const void* obj)
+{
+    ThreadCtx& c = ctx();
+    int e = rt.engine.load(std::memory_order_relaxed);
+    if (e == E_SERIAL) {
+        if (c.vtid >= 0) serial_point(c, k, obj);
+    } else if (e == E_STRESS) {
+        if (c.inj_p) stress_delay(c);
+    }
+}
 inline void user_point() { pre(U_POINT, nullptr); }
 inline void harness_point() { pre(H_POINT, nullptr); }
 
@@ -703,6 +716,7 @@ class vm_core {
         shadow_release(c, shared);
         real_unlock(shared);
         if (rt.engine.load(std::memory_order_relaxed) == E_SERIAL && c.vtid >= 0) serial_wake_mutex_waiters(this);
+        post(shared ? M_UNLOCK_SH : M_UNLOCK, this);
     }
     template<class Rep, class Period>
     static int64_t deadline_from(const std::chrono::duration<Rep, Period>& d)
@@ -964,6 +978,7 @@ struct verif_atomic: public std::atomic<T> {
         }
         if (!c.sb.empty()) vrf::sb_flush(c);  // seq_cst store drains the buffer (x86: xchg / mfence)
         B::store(v, mo);
+        vrf::post(vrf::A_STORE, this);
     }
     operator T() const noexcept { return load(); }
     T operator=(T v) noexcept
@@ -974,57 +989,77 @@ struct verif_atomic: public std::atomic<T> {
     T exchange(T v, std::memory_order mo = std::memory_order_seq_cst) noexcept
     {
         rmw_pre(mo);
-        return B::exchange(v, mo);
+        T r = B::exchange(v, mo);
+        vrf::post(vrf::A_RMW, this);
+        return r;
     }
     bool compare_exchange_weak(T& e, T d, std::memory_order s, std::memory_order f) noexcept
     {
         cas_pre(s);
-        return B::compare_exchange_weak(e, d, s, f);
+        bool r = B::compare_exchange_weak(e, d, s, f);
+        vrf::post(vrf::A_CAS, this);
+        return r;
     }
     bool compare_exchange_weak(T& e, T d, std::memory_order mo = std::memory_order_seq_cst) noexcept
     {
         cas_pre(mo);
-        return B::compare_exchange_weak(e, d, mo);
+        bool r = B::compare_exchange_weak(e, d, mo);
+        vrf::post(vrf::A_CAS, this);
+        return r;
     }
     bool compare_exchange_strong(T& e, T d, std::memory_order s, std::memory_order f) noexcept
     {
         cas_pre(s);
-        return B::compare_exchange_strong(e, d, s, f);
+        bool r = B::compare_exchange_strong(e, d, s, f);
+        vrf::post(vrf::A_CAS, this);
+        return r;
     }
     bool compare_exchange_strong(T& e, T d, std::memory_order mo = std::memory_order_seq_cst) noexcept
     {
         cas_pre(mo);
-        return B::compare_exchange_strong(e, d, mo);
+        bool r = B::compare_exchange_strong(e, d, mo);
+        vrf::post(vrf::A_CAS, this);
+        return r;
     }
     template<class D>
     T fetch_add(D d, std::memory_order mo = std::memory_order_seq_cst) noexcept
     {
         rmw_pre(mo);
-        return B::fetch_add(d, mo);
+        T r = B::fetch_add(d, mo);
+        vrf::post(vrf::A_RMW, this);
+        return r;
     }
     template<class D>
     T fetch_sub(D d, std::memory_order mo = std::memory_order_seq_cst) noexcept
     {
         rmw_pre(mo);
-        return B::fetch_sub(d, mo);
+        T r = B::fetch_sub(d, mo);
+        vrf::post(vrf::A_RMW, this);
+        return r;
     }
     template<class D>
     T fetch_and(D d, std::memory_order mo = std::memory_order_seq_cst) noexcept
     {
         rmw_pre(mo);
-        return B::fetch_and(d, mo);
+        T r = B::fetch_and(d, mo);
+        vrf::post(vrf::A_RMW, this);
+        return r;
     }
     template<class D>
     T fetch_or(D d, std::memory_order mo = std::memory_order_seq_cst) noexcept
     {
         rmw_pre(mo);
-        return B::fetch_or(d, mo);
+        T r = B::fetch_or(d, mo);
+        vrf::post(vrf::A_RMW, this);
+        return r;
     }
     template<class D>
     T fetch_xor(D d, std::memory_order mo = std::memory_order_seq_cst) noexcept
     {
         rmw_pre(mo);
-        return B::fetch_xor(d, mo);
+        T r = B::fetch_xor(d, mo);
+        vrf::post(vrf::A_RMW, this);
+        return r;
     }
     T operator++(int) noexcept { return fetch_add(1); }
     T operator--(int) noexcept { return fetch_sub(1); }
